@@ -64,7 +64,26 @@ def make_options(cfg):
     flow = make_flow(cfg.get("flow"), cfg.get("logical", 0), cfg.get("frame_size"))
     if flow is not None:
         kwargs["flow"] = flow
-    return SerializerOptions(**kwargs)
+    opts = SerializerOptions(**kwargs)
+    if flow is None and cfg.get("options_history") == "abandoned":
+        # the caller's options object has a past: a stream was started from it (its options row is sitting in that stream's
+        # flow) and then abandoned, e.g. after an error further up - options are configuration, this must leave no trace
+        from pyjelly.integrations.generic.serialize import GenericSinkTermEncoder
+
+        try:
+            old = stream_class(cfg.get("phys", "TRIPLES"))(encoder=GenericSinkTermEncoder(lookup_preset=opts.lookup_preset),
+                                                           options=opts)
+            old.enroll()
+            from pyjelly.integrations.generic.generic_sink import BlankNode, DefaultGraph, Quad, Triple
+
+            b = BlankNode("abandoned")
+            if cfg.get("phys", "TRIPLES") == "QUADS":
+                old.quad(Quad(b, b, b, DefaultGraph))
+            else:
+                old.triple(Triple(b, b, b))
+        except Exception:  # noqa: BLE001  (a configuration the stream class refuses: no past then)
+            pass
+    return opts
 
 
 def make_stream(cfg, integration: str):
